@@ -157,6 +157,33 @@ Section Check.
                           | _, _ => true
                           end) (combine (q_entries q) (s_views S)).
 
+  (* ---- attribute access and keyword views ------------------------------------ *)
+  (* wl.<s>: a spelling of the concept column gives rows, of the language column
+     cols, of any other column its entry table - whatever the metadata holds;
+     get_list(s=name, flat=True) lists the rows of that language / concept *)
+  Definition dim_of (s : string) : option bool :=       (* Some true: concepts, Some false: languages *)
+    match canon_of s with
+    | Some c => if String.eqb c "concept" then Some true else if String.eqb c "doculect" then Some false else None
+    | None => None
+    end.
+  Definition attr_b (q : queries) : bool :=
+    forallb (fun sa => match dim_of (fst sa) with
+                       | Some true => match snd sa with AList l => zl_eqb l rws | _ => false end
+                       | Some false => match snd sa with AList l => zl_eqb l cols | _ => false end
+                       | None => match expected_idx (fst sa) (s_columns S), snd sa with
+                                 | Some k, ATable t => cll_eqb t (map (map (ent D (Some k))) A)
+                                 | Some _, _ => false
+                                 | None, _ => true
+                                 end
+                       end) (combine (q_attrs q) (s_attrs S))
+    && forallb (fun kr => match dim_of (fst (fst kr)), snd kr with
+                          | Some true, Some l => cperm_b l (map (ent_row None) (crows (snd (fst kr))))
+                          | Some false, Some l => cperm_b l (map (ent_row None) (lrows (snd (fst kr))))
+                          | Some true, None => negb (zmem (snd (fst kr)) rws)
+                          | Some false, None => negb (zmem (snd (fst kr)) cols)
+                          | None, _ => true
+                          end) (combine (q_kws q) (s_kws S)).
+
   (* ---- distances ---------------------------------------------------------- *)
   Definition dst_formula (ref : nat) (ignore : bool) (l1 l2 : Z) : Q := dst_decl D ri ci rws ref ignore l1 l2.
   Definition qget (m : list (list Q)) (i j : nat) : Q := nth j (nth i m []) (-(1))%Q.
@@ -223,7 +250,7 @@ Definition snap_bits (K : keys) (S : snapshot) (q : queries) : list bool :=
     with_idx S (fun ri ci => views_b S ri ci q);
     with_idx S (fun ri ci => etym_b S ci q);
     with_idx S (fun ri ci => rowscols_b K S ri ci);
-    with_idx S (fun ri ci => alias_b S q);
+    with_idx S (fun ri ci => alias_b S q && attr_b S ri ci q);
     true;
     with_idx S (fun ri ci => dst_b S ri ci q);
     with_idx S (fun ri ci => paps_b S ri ci q) ].
